@@ -93,7 +93,7 @@ class Device(object):
             ent = cpppo.dotdict()
             ent.attribute = att
             ent.path = path
-            ent.error = 0
+            ent.error = tg.get("error", 0)          # a forced error code (the simulator's way of playing a failing device)
             dict.__setitem__(tags, name, ent)
             self.attrs.append(att)
         if via_main:
@@ -120,6 +120,9 @@ class Device(object):
             finally:
                 network.server_main = saved
             tags = captured["tags"]
+            for tg in cfg["tags"]:          # (forced error codes are not part of the command line syntax: set on the entries main() built)
+                if tg.get("error"):
+                    dict.__getitem__(tags, bytes(bytearray(tg["name"])).decode("iso-8859-1")).error = tg["error"]
             self.attrs = [dict.__getitem__(tags, bytes(bytearray(tg["name"])).decode("iso-8859-1")).attribute for tg in cfg["tags"]]
         self.tags = tags
         kw = {}
